@@ -316,7 +316,7 @@ class Facts:
         (``refs = obj._param__private.refs``) -> that expression."""
         counts: Dict[str, int] = {}
         vals: Dict[str, ast.AST] = {}
-        for sub in walk_no_nested(f.node) if False else ast.walk(f.node):
+        for sub in ast.walk(f.node):
             if isinstance(sub, ast.Assign) and len(sub.targets) == 1 and isinstance(sub.targets[0], ast.Name):
                 n = sub.targets[0].id
                 counts[n] = counts.get(n, 0) + 1
@@ -327,7 +327,15 @@ class Facts:
                 for t in ast.walk(sub.target):
                     if isinstance(t, ast.Name):
                         counts[t.id] = counts.get(t.id, 0) + 2
-        return {n: v for n, v in vals.items() if counts.get(n) == 1 and isinstance(v, (ast.Attribute, ast.Subscript))}
+        out = {}
+        for n, v in vals.items():
+            if counts.get(n) != 1:
+                continue
+            if isinstance(v, ast.BoolOp) and isinstance(v.op, ast.Or):
+                v = v.values[-1]      # `d = d or obj._param__private.values`
+            if isinstance(v, (ast.Attribute, ast.Subscript)):
+                out[n] = v
+        return out
 
     def field_of(self, expr, aliases: Dict[str, ast.AST] = None) -> Optional[str]:
         """Tracked field denoted by an access path:
